@@ -109,6 +109,12 @@ def decide_edges(rep: Report, edges, viol_classes, stepbound, workdir, sig_fn=No
         cnt, first = summ[k]
         bad = [c for c in cnt if c in viol_classes]
         e["verdicts"] = dict(cnt)
+        if "scope" in viol_classes and e.get("unprintable"):
+            sig = {"op": e["op"], "class": "illformed", "detail": "unprintable", "prog": e["prog"], "args": e["args"]}
+            sig.update({f"fact_{kk}": vv for kk, vv in e["facts"].items()})
+            rep.violation(edge_sig(sig, e, "illformed"),
+                          {"edge": {kk: e[kk] for kk in ("prog", "op", "args", "facts", "chain") if kk in e},
+                           "verdict": "the derived procedure cannot be printed: " + e["unprintable"], "text_a": e.get("text_a")})
         if "scope" in viol_classes and k in scope_bad:
             sig = {"op": e["op"], "class": "scope", "detail": "", "prog": e["prog"], "args": e["args"]}
             sig.update({f"fact_{kk}": vv for kk, vv in e["facts"].items()})
